@@ -15,6 +15,7 @@ import (
 	"encoding/json"
 	"fmt"
 	"hash/crc32"
+	"syscall"
 	"testing"
 )
 
@@ -347,6 +348,9 @@ func (p *cdProg) get(pd packetDecoder, i int) (c cdCell, err error) {
 		}
 	case "strarr":
 		var ss []string
+		if err = cdGuardCount(pd, false); err != nil {
+			break
+		}
 		ss, err = pd.getStringArray()
 		if ss == nil {
 			c.N = -1
@@ -363,6 +367,9 @@ func (p *cdProg) get(pd packetDecoder, i int) (c cdCell, err error) {
 		case "i32arr":
 			xs, err = pd.getInt32Array()
 		default:
+			if err = cdGuardCount(pd, true); err != nil {
+				break
+			}
 			xs, err = pd.getCompactInt32Array()
 		}
 		if xs == nil {
@@ -398,6 +405,37 @@ func (p *cdProg) get(pd packetDecoder, i int) (c cdCell, err error) {
 		err = fmt.Errorf("harness: unknown op %q", op.K)
 	}
 	return c, err
+}
+
+// The pinned realDecoder allocates for getStringArray / getCompactInt32Array whatever count the bytes claim (C10's
+// subject). A valid encoding never claims more elements than bytes remain; on a damaged buffer the harness
+// refuses the call instead of letting the test process allocate gigabytes (recorded as a decode error).
+func cdGuardCount(pd packetDecoder, compact bool) error {
+	rd := pd.(*realDecoder)
+	rest := rd.raw[rd.off:]
+	var n uint64
+	if compact {
+		v, k := binary.Uvarint(rest)
+		if k <= 0 {
+			return nil
+		}
+		n = v
+	} else {
+		if len(rest) < 4 {
+			return nil
+		}
+		n = uint64(binary.BigEndian.Uint32(rest))
+	}
+	if n > uint64(len(rest))+1 {
+		return fmt.Errorf("harness guard: element count %d exceeds the %d remaining bytes", n, len(rest))
+	}
+	return nil
+}
+
+// an address-space ceiling for the test process: a runaway allocation of the code under test must not take the machine down
+func cdLimitMemory() {
+	lim := syscall.Rlimit{Cur: 12 << 30, Max: 12 << 30}
+	_ = syscall.Setrlimit(syscall.RLIMIT_AS, &lim)
 }
 
 func (p *cdProg) decode(pd packetDecoder) error {
@@ -451,7 +489,7 @@ func cdRunProg(rec *vRec, line string) (encErr bool) {
 			dend = p.dec[n-1].Off
 		}
 	} else {
-		p.prep, p.real, p.wr, p.crc, raw = nil, nil, nil, nil, nil
+		p.real, p.wr, p.crc, raw = nil, nil, nil, nil // what the sizing pass reported is kept
 	}
 	opsRaw, _ := json.Marshal(c.Ops)
 	nz := func(x []int) []int {
@@ -475,6 +513,7 @@ func cdRunProg(rec *vRec, line string) (encErr bool) {
 }
 
 func TestVerifCodecProg(t *testing.T) {
+	cdLimitMemory()
 	lines := vReadLines(t, "VERIF_CASES")
 	rec := vOpenRec(t, "trace.ndjson")
 	nerr := 0
